@@ -1,7 +1,7 @@
 (* Properties/C16.v — C16: NYCT trips extension derives standard fields and is transparent otherwise.
    Model: the NyctTrips part of Model/Realtime.v (extensions/nycttrips), the station set regenerated from the source
    (Gen/NyctTables.v); tied by the rt_nycttrips engine for all four option combinations. *)
-From GV Require Import Base.Prelude Model.RtTypes Model.RtWire Model.Realtime Proofs.RealtimeProofs Gen.Enums Gen.NyctTables Gen.Footprint.
+From GV Require Import Base.Prelude Model.RtTypes Model.RtWire Model.Realtime Proofs.RealtimeProofs Gen.Enums Gen.NyctTables Gen.Footprint Proofs.TransparencyProofs.
 
 (* the start time is the origin time (hundredths of a minute) truncated to whole seconds - for EVERY origin time 000000-599999 *)
 Theorem C16_start_time : forall n, 0 <= n < 600000 ->
@@ -68,3 +68,11 @@ Proof. vm_compute. repeat split. Qed.
 (* tie to the source: the NYCT trip id pattern as it stands in nycttrips.go now (trip_id_origin implements this language) *)
 Example C16_regex_source : alookup "TripIDRegex" regex_sources = Some "^([0-9]{6})_([[:alnum:]]{1,2})..([SN])([[:alnum:]]*)$".
 Proof. reflexivity. Qed.
+
+(* ---- "transparent otherwise", for the whole message: a message without NYCT data (no NYCT trip descriptor, no NYCT stop time
+   update) to which the M-train platform fix does not apply (fix disabled, or no trip update on route M) parses under the nycttrips
+   extension - with ANY stale-filter / platform flags - to exactly the result it parses to without extension ---- *)
+Theorem C16_transparent_message : forall cm tz filter preserve m, Forall (entity_plain preserve) (fm_entities m) ->
+  parse_message cm tz (NyctTrips filter preserve) m = parse_message cm tz NoExt m.
+Proof. exact nycttrips_transparent. Qed.
+Print Assumptions C16_transparent_message.
